@@ -352,9 +352,17 @@ class Translator:
         if fn == "hypot":
             return sp.sqrt(A(0) ** 2 + A(1) ** 2)
         if fn in ("maximum", "fmax") or (fn == "max" and len(args) >= 2):
-            return sp.Max(*[self.tr(a) for a in args])
+            vals_ = [self.tr(a) for a in args]
+            try:
+                return sp.Max(*vals_)
+            except (ValueError, TypeError):
+                return sp.Function("max")(*vals_)          # operands sympy cannot order (lengths of opaque objects)
         if fn in ("minimum", "fmin") or (fn == "min" and len(args) >= 2):
-            return sp.Min(*[self.tr(a) for a in args])
+            vals_ = [self.tr(a) for a in args]
+            try:
+                return sp.Min(*vals_)
+            except (ValueError, TypeError):
+                return sp.Function("min")(*vals_)
         if fn == "where" and len(args) == 3:
             fake = ast.IfExp(test=args[0], body=args[1], orelse=args[2])
             mm = minmax_of_ifexp(fake, self)
